@@ -530,6 +530,23 @@ C13(pre, e, post, line) ==
        IN (flat /\ hi.known /\ hm.known /\ noReduce /\ ~hi.liabNoPrice) =>
           Chk("C13", "initially_healthy_implies_maintenance_healthy", line,
               RGe(Health(hi), hi.tol) => RGe(Health(hm), RNeg(hm.tol)), [acct |-> an])
+  \* the same consequence for what the program decides: at equal spot / time-weighted prices and zero confidence an
+  \* account that passes the initial-margin check (reference valuation, least favourable reading, beyond the allowance)
+  \* cannot be liquidated
+  /\ (e.ev = "liquidate" /\ Ok(e) /\ Has(pre.accts, e.a.liquidatee)) =>
+       LET an == e.a.liquidatee a == pre.accts[an]
+           preA == [pre EXCEPT !.banks = [bn \in DOMAIN pre.banks |->
+                      IF Has(post.banks, bn) THEN [pre.banks[bn] EXCEPT !.asv = post.banks[bn].asv, !.lsv = post.banks[bn].lsv] ELSE pre.banks[bn]]]
+           flat == \A i \in ActiveSlots(a) :
+                     LET b == pre.banks[a.bal[i].bank] IN
+                     \/ b.cfg.oracle_setup = SETUP_FIXED
+                     \/ (b.cfg.oracle_setup = SETUP_SWB /\ Has(pre.oracles, b.cfg.oracle_keys[1]) /\ BIsZero(pre.oracles[b.cfg.oracle_keys[1]].swb_std))
+                     \/ (b.cfg.oracle_setup = SETUP_PYTH /\ Has(pre.oracles, b.cfg.oracle_keys[1])
+                         /\ LET o == pre.oracles[b.cfg.oracle_keys[1]] IN o.price = o.ema /\ BIsZero(o.conf) /\ BIsZero(o.ema_conf))
+           hi == HealthRef(preA, e, a, "Init", "unfav")
+       IN (flat /\ hi.known /\ ~hi.liabNoPrice) =>
+          Chk("C13", "account_that_passes_the_initial_check_cannot_be_liquidated", line, RLt(Health(hi), hi.tol),
+              [acct |-> an, init_health_num |-> Health(hi)[1], init_health_den |-> Health(hi)[2]])
 
 \* ---- C14 operational-state gating ------------------------------------------------------------
 C14Bank(pre, e, post, line) ==
@@ -554,4 +571,22 @@ C14Bank(pre, e, post, line) ==
            h == HealthRef(post, e, a, "Init", "fav")
        IN (ro # {} /\ hasDebt /\ h.known /\ ~Bit(a.flags, ACC_FLASHLOAN) /\ ~Bit(a.flags, ACC_RECEIVERSHIP)) =>
           Chk("C14", "reduce_only_deposits_count_for_nothing_toward_new_borrowing", line, RGe(Health(h), RNeg(h.tol)), [acct |-> e.a.acct, ev |-> e.ev])
+  \* ... but they still count when the account is assessed for liquidation or for a bad-debt write-off: with its reduce-only
+  \* deposits valued like any other (maintenance weights / unweighted), a liquidated account was unhealthy and a written-off
+  \* account was worth less than its debt and less than ten cents
+  /\ (e.ev \in {"liquidate", "bankruptcy"} /\ Ok(e)) =>
+       LET an == IF e.ev = "liquidate" THEN e.a.liquidatee ELSE e.a.acct IN
+       (Has(pre.accts, an)) =>
+         LET a == pre.accts[an]
+             ro == {i \in ActiveSlots(a) : BGe(a.bal[i].a, FONE) /\ pre.banks[a.bal[i].bank].cfg.op_state = OP_REDUCE_ONLY}
+             preA == [pre EXCEPT !.banks = [bn \in DOMAIN pre.banks |->
+                        IF Has(post.banks, bn) THEN [pre.banks[bn] EXCEPT !.asv = post.banks[bn].asv, !.lsv = post.banks[bn].lsv] ELSE pre.banks[bn]]]
+             hm == HealthRef(preA, e, a, "Maint", "unfav")
+             hq == HealthRef(pre, e, a, "Equity", "unfav")
+         IN (ro # {}) =>
+            /\ (e.ev = "liquidate" /\ hm.known) =>
+                 Chk("C14", "reduce_only_deposits_still_count_when_liquidation_is_assessed", line, RLt(Health(hm), hm.tol), [acct |-> an])
+            /\ (e.ev = "bankruptcy" /\ hq.known) =>
+                 Chk("C14", "reduce_only_deposits_still_count_when_bad_debt_is_assessed", line,
+                     RLt(RSub(hq.av, hq.tol), BANKRUPT_USD) /\ RLt(RSub(hq.av, hq.tol), RAdd(hq.lv, hq.tol)), [acct |-> an])
 =============================================================================
